@@ -614,6 +614,13 @@ impl Recv {
                             .recv_flow
                             .dec_recv_window(dec)
                             .map_err(proto::Error::library_go_away)?;
+
+                        // Lowering the window also lowers the threshold at
+                        // which released capacity is announced, so capacity
+                        // released earlier may be owed to the peer now.
+                        if stream.recv_flow.unclaimed_capacity().is_some() {
+                            self.pending_window_updates.push(&mut stream);
+                        }
                         Ok::<_, proto::Error>(())
                     })?;
                 }
